@@ -27,6 +27,7 @@ def c5(ctx):
     notes.grouping_order(ctx, join_guard=False)
     f = ctx.p.func("simfile.notes.group:group_notes.attach_tail")
     records.rebuild_site(ctx, f, "simfile.notes.group.NoteWithTail", 1, "head", {"tail_beat": "tail.beat"}, "joined head")
+    notes.attach_tail_rule(ctx)
 
 
 def c3(ctx):
